@@ -63,10 +63,11 @@ def extract(path):
         publish_last = True
         if stores:
             m_store = re.search(re.escape(own) + r"\s*\.\s*store\s*\(", body)
-            slot_pos = [m.start() for m in re.finditer(r"_buffer\s*\[", body)]
-            if not slot_pos:
-                raise RuntimeError("%s::%s (line %d): no slot access found" % (cls, fn, line))
-            publish_last = m_store.start() > max(slot_pos)
+            # any mention of the slot storage counts (indexing, .data(), .begin() ... - a rewrite with std::copy still names it);
+            # a body that never names it leaves the order unknown (None): not a reason to stop - the linearizability runs judge
+            # what such code does
+            slot_pos = [m.start() for m in re.finditer(r"\b_buffer\b", body)]
+            publish_last = (m_store.start() > max(slot_pos)) if slot_pos else None
         table.append(dict(cls=cls, fn=fn, line=line, load=order_of(loads[0]), store=order_of(stores[0]) if stores else None,
                           publish_last=publish_last))
     need = {(c, f) for c in ("RingBuffer", "DynamicRingBuffer") for f in PUSH | POP}
@@ -78,8 +79,8 @@ def extract(path):
         PushHeadRel=all(t["store"] in REL for t in table if t["fn"] in PUSH),
         PopHeadAcq=all(t["load"] in ACQ for t in table if t["fn"] in POP),
         PopTailRel=all(t["store"] in REL for t in table if t["fn"] in POP and t["store"] is not None),
-        PushPublishLast=all(t["publish_last"] for t in table if t["fn"] in PUSH),
-        PopPublishLast=all(t["publish_last"] for t in table if t["fn"] in POP))
+        PushPublishLast=all(t["publish_last"] is not False for t in table if t["fn"] in PUSH),
+        PopPublishLast=all(t["publish_last"] is not False for t in table if t["fn"] in POP))
     return consts, table
 
 
